@@ -75,7 +75,7 @@ Proof. exact ftp_fuel_enough. Qed.
 Theorem C04_reference_memcached_persistent : forall udp fuel, persistent (memcached_prog true udp fuel).
 Proof. exact memcached_ideal_persistent. Qed.
 
-Theorem C04_reference_http_persistent : forall cfg fuel, persistent (http_prog cfg true fuel).
+Theorem C04_reference_http_persistent : forall cfg fuel, persistent (http_prog cfg MODE_REF fuel).
 Proof. exact http_ideal_persistent. Qed.
 
 (* ---- datagram services: each datagram is decoded on its own, whatever its length ---- *)
